@@ -115,6 +115,9 @@ func (e *Engine) exploreLocal(thunk func() value) (results []mergeResult, ok boo
 		for i := undoBase; i < len(e.undo); i++ {
 			u := e.undo[i]
 			if u.f != nil {
+				if u.benign {
+					continue
+				}
 				panic(mergeAbort{"map/channel mutation inside merged region"})
 			}
 			if _, seen := mr.writes[u.p]; !seen {
